@@ -1,7 +1,7 @@
 (* Dispatch table of the extracted model executable: one command per modelled function.
    Model modules are required, not imported: every reference below is qualified. *)
 From FV Require Import Base.Prelude.
-From FV Require Model.FragTranslate Model.ScriptBlocks Model.MathFuncs gen.MathTable Cpp.IR Cpp.Exec Model.KindModel Model.Arith Model.LocalDataset Model.WordSubst Model.CppTypesModel Model.ExecState Cpp.EventLocal Model.Inject gen.Templates Cpp.Static Model.Lowering Cpp.FillConsistent Model.TreeSchema Model.CppLex Model.Consts Model.Binding.
+From FV Require Model.FragTranslate Model.ScriptBlocks Model.MathFuncs gen.MathTable Cpp.IR Cpp.Exec Model.KindModel Model.Arith Model.LocalDataset Model.WordSubst Model.CppTypesModel Model.ExecState Cpp.EventLocal Model.Inject gen.Templates Cpp.Static Model.Lowering Cpp.FillConsistent Model.TreeSchema Model.CppLex Model.Consts Model.Binding Model.Collections gen.Collections.
 
 Definition dispatch (cmd : string) (arg : sexp) : sexp :=
   if String.eqb cmd "c15.gen" then ScriptBlocks.run_gen arg
@@ -56,4 +56,8 @@ Definition dispatch (cmd : string) (arg : sexp) : sexp :=
   else if String.eqb cmd "c08.resolve" then Binding.run_resolve arg
   else if String.eqb cmd "c08.rewrite" then Binding.run_rewrite arg
   else if String.eqb cmd "c01.denote" then FragTranslate.run_denote arg
+  else if String.eqb cmd "c12.audit" then MathFuncs.audit MathTable.math_env MathTable.documented
+  else if String.eqb cmd "c06.query" then Model.Collections.run_query_wire gen.Collections.coll_env arg
+  else if String.eqb cmd "c06.subst" then Model.Collections.run_subst_wire arg
+  else if String.eqb cmd "c06.tables" then Model.Collections.run_tables_wire gen.Collections.coll_env
   else s_tag "unknown-command" [SAtom cmd].
